@@ -129,6 +129,9 @@ func (g *Gen) fsym(f *ssa.Function, i, n int) string {
 
 // useCallee declares F_f, emits the axioms its contract licenses and returns F_f(args) per result.
 func (g *Gen) useCallee(f *ssa.Function, args []Term) []Term {
+	if o := f.Origin(); o != nil {
+		f = o // instantiations share the generic function's symbol and contract
+	}
 	sig := f.Signature
 	n := sig.Results().Len()
 	if !g.callees[f] {
